@@ -122,18 +122,17 @@ func (t *KernMethod) TransferGovernTokens(ctx contract.KContext) (*contract.Resp
 	}
 	senderBalance.TotalBalance.Sub(senderBalance.TotalBalance, amount)
 
-	// 设置receiver余额
+	// 查询receiver余额并更新, receiver已有的锁定余额保持不变
 	receiverBalance := utils.NewGovernTokenBalance()
-	receiverBalance.TotalBalance.Set(amount)
-
-	// 查询receiver余额并更新
 	receiverKey := utils.MakeAccountBalanceKey(string(receiverBuf))
 	receiverBalanceBuf, err := ctx.Get(utils.GetGovernTokenBucket(), []byte(receiverKey))
 	if err == nil {
-		receiverBalanceOld := &utils.GovernTokenBalance{}
-		json.Unmarshal(receiverBalanceBuf, receiverBalanceOld)
-		receiverBalance.TotalBalance.Add(receiverBalance.TotalBalance, receiverBalanceOld.TotalBalance)
+		receiverBalanceOld := utils.NewGovernTokenBalance()
+		if json.Unmarshal(receiverBalanceBuf, receiverBalanceOld) == nil {
+			receiverBalance = receiverBalanceOld
+		}
 	}
+	receiverBalance.TotalBalance.Add(receiverBalance.TotalBalance, amount)
 
 	// 更新sender余额
 	senderBalanceBuf, _ := json.Marshal(senderBalance)
